@@ -1,9 +1,359 @@
 package props
 
-import "verif/internal/core"
+import (
+	"encoding/json"
+	"fmt"
+	"math/rand"
+	"path/filepath"
+	"strings"
+	"sync"
+	"time"
 
-// C12 — stub, replaced by the real check.
+	"verif/internal/core"
+)
+
+type c12Case struct {
+	ID    string   `json:"id"`
+	Kind  string   `json:"kind"`
+	Ops   []string `json:"ops,omitempty"`
+	Pair  string   `json:"pair,omitempty"`
+	Sched string   `json:"sched,omitempty"`
+	Rep   int      `json:"rep,omitempty"`
+	Seed  int64    `json:"seed,omitempty"`
+	G     int      `json:"g,omitempty"`
+}
+
+type c12Result struct {
+	ID    string `json:"id"`
+	Kind  string `json:"kind"`
+	Trace []struct {
+		Op     string `json:"op"`
+		Target string `json:"target,omitempty"`
+		Status int    `json:"status,omitempty"`
+		Ms     int64  `json:"ms"`
+		Note   string `json:"note,omitempty"`
+	} `json:"trace"`
+	Calls      int      `json:"calls"`
+	Skipped    int      `json:"skipped"`
+	Violations []string `json:"violations"`
+	NoAnswer   []string `json:"no_answer"`
+	Forced     bool     `json:"forced"`
+	Order      string   `json:"order"`
+	Statuses   string   `json:"statuses"`
+	Delivered  int      `json:"delivered"`
+	CloseSeen  int      `json:"close_seen"`
+	Ms         int64    `json:"ms"`
+}
+
+// The call alphabet of the sequential histories.
+var c12Alphabet = []string{
+	"ov", "om", "or", // open: valid | malformed URL | backend refuses the upgrade
+	"dv", "du", "dc", "dm", "dt", // data: valid session | unknown | closed | malformed JSON | wrong message type
+	"pv", "pu", "pc", "pm", // poll
+	"cv", "cu", "cc", "cm", // close
+	"bs", "bc", // backend sends | backend closes
+}
+
+// c12Model is the static session model used to enumerate only histories in
+// which every call means what its name says (e.g. "closed" needs a closed
+// session, a valid poll needs something pending so that it cannot block 20 s).
+type c12Model struct {
+	state   []int // per session: 0 live, 1 backend closed, 2 closed
+	pending []int
+}
+
+func (m c12Model) cur() int {
+	for i := len(m.state) - 1; i >= 0; i-- {
+		if m.state[i] != 2 {
+			return i
+		}
+	}
+	return -1
+}
+
+func (m c12Model) enabled(op string) bool {
+	c := m.cur()
+	switch op {
+	case "dv", "dt", "cv":
+		return c >= 0
+	case "bs", "bc":
+		return c >= 0 && m.state[c] == 0
+	case "pv":
+		return c >= 0 && (m.pending[c] > 0 || m.state[c] == 1)
+	case "dc", "pc", "cc":
+		for _, s := range m.state {
+			if s == 2 {
+				return true
+			}
+		}
+		return false
+	}
+	return true
+}
+
+func (m c12Model) apply(op string) c12Model {
+	n := c12Model{append([]int(nil), m.state...), append([]int(nil), m.pending...)}
+	c := n.cur()
+	switch op {
+	case "ov":
+		n.state = append(n.state, 0)
+		n.pending = append(n.pending, 0)
+	case "pv":
+		n.pending[c] = 0
+		if n.state[c] == 1 {
+			n.state[c] = 2
+		}
+	case "cv":
+		n.state[c] = 2
+	case "bs":
+		n.pending[c]++
+	case "bc":
+		n.state[c] = 1
+	}
+	return n
+}
+
+func c12Enumerate(maxLen int) [][]string {
+	var out [][]string
+	var rec func(m c12Model, prefix []string)
+	rec = func(m c12Model, prefix []string) {
+		if len(prefix) > 0 {
+			out = append(out, append([]string(nil), prefix...))
+		}
+		if len(prefix) == maxLen {
+			return
+		}
+		for _, op := range c12Alphabet {
+			if m.enabled(op) {
+				rec(m.apply(op), append(prefix, op))
+			}
+		}
+	}
+	rec(c12Model{}, nil)
+	return out
+}
+
+// c12Sample draws a history of the given length by a random walk over the
+// enabled calls, preferring calls that change the session state.
+func c12Sample(rng *rand.Rand, n int) []string {
+	m := c12Model{}
+	var ops []string
+	for len(ops) < n {
+		var en []string
+		for _, op := range c12Alphabet {
+			if m.enabled(op) {
+				en = append(en, op)
+				if strings.HasSuffix(op, "v") || op[0] == 'b' || strings.HasSuffix(op, "c") {
+					en = append(en, op, op)
+				}
+			}
+		}
+		op := en[rng.Intn(len(en))]
+		ops = append(ops, op)
+		m = m.apply(op)
+	}
+	return ops
+}
+
+// C12 — the shim answers every call and survives any call order.
 func C12(r *core.Run) {
-	r.Broken("check not implemented yet")
-	r.Finish(1)
+	r.Level = "bounded_exhaustive"
+	r.SetRule("websockets.Proxy driven in-process (race-built worker with the verif hooks, agent's GODEBUG defaults, real gorilla backend). (i) sequential histories over the 18-symbol alphabet {open: valid|malformed URL|upgrade refused; data: valid|unknown|closed|malformed JSON|wrong msg type; poll/close: valid|unknown|closed|malformed; backend-send; backend-close}: every history up to length 4 that a static session model enables (thorough: plus sampled histories of length 5-7), each followed by a wind-down and a liveness probe on the same handler; (ii) concurrent pairs data‖close, close‖close, poll‖close, data‖backend-close, poll‖backend-close, open‖poll(guessed id) under hook schedules that park one goroutine at a hook until the other has passed a second point (2 s safety timeout), repeated; (iii) unforced stress: 8-16 goroutines issuing data/poll/close on one session while the backend talks and then client or backend closes; (iv) one idle poll that must time out by itself. class = history | pair/schedule | stress shape")
+	r.Assume("a session counts as closed once a close answered 200 or a poll answered 400 for it; between a backend-initiated close and that poll, data may answer 200 or 400; complete delivery after a backend close is only demanded when no client data/close call on that session intervened")
+	bin := r.MustBuild(r.BuildWorker())
+	godebug := "GODEBUG=" + shimGodebug(r)
+
+	// forced schedules are listed by the worker (single source of truth)
+	listOut, _, err := r.RunWorker(bin, "c12list", []byte("{}"), time.Minute)
+	var scheds []struct{ Pair, Name string }
+	for _, ln := range strings.Split(string(listOut), "\n") {
+		var s struct{ Pair, Name string }
+		if json.Unmarshal([]byte(ln), &s) == nil && s.Pair != "" {
+			scheds = append(scheds, s)
+		}
+	}
+	if err != nil || len(scheds) == 0 {
+		r.Broken(fmt.Sprintf("cannot list forced schedules: %v", err))
+		r.Finish(1)
+	}
+
+	var hist, forced, stress []c12Case
+	for i, ops := range c12Enumerate(4) {
+		hist = append(hist, c12Case{ID: fmt.Sprintf("h%d", i), Kind: "hist", Ops: ops})
+	}
+	exhaustive := len(hist)
+	rng := r.Rand("c12")
+	if !r.Quick() {
+		for i := 0; i < 25000; i++ {
+			hist = append(hist, c12Case{ID: fmt.Sprintf("hs%d-%d", r.Seed, i), Kind: "hist", Ops: c12Sample(rng, 5+rng.Intn(3))})
+		}
+	}
+	reps := r.Pick(20, 200)
+	for rep := 0; rep < reps; rep++ {
+		for si, s := range scheds {
+			forced = append(forced, c12Case{ID: fmt.Sprintf("f%d-%d", si, rep), Kind: "forced", Pair: s.Pair, Sched: s.Name, Rep: rep})
+		}
+	}
+	for i := 0; i < r.Pick(120, 1500); i++ {
+		stress = append(stress, c12Case{ID: fmt.Sprintf("st%d-%d", r.Seed, i), Kind: "stress", Seed: rng.Int63(), G: 8 + rng.Intn(9)})
+	}
+	all := map[string]c12Case{}
+	for _, l := range [][]c12Case{hist, forced, stress} {
+		for _, c := range l {
+			all[c.ID] = c
+		}
+	}
+	idle := c12Case{ID: "idle", Kind: "idle"}
+	all[idle.ID] = idle
+
+	hits := map[string]int64{}
+	var hmu sync.Mutex
+	run := func(cs []c12Case, shards, parallel, scale int) []c12Result {
+		gen := make([]interface{}, len(cs))
+		for i, c := range cs {
+			gen[i] = c
+		}
+		lines, crashes := shimRun(r, bin, "c12", gen, shards, map[string]interface{}{"parallel": parallel, "scale": scale}, 15*time.Minute, godebug)
+		shimJudgeCrashes(r, crashes)
+		var out []c12Result
+		hmu.Lock()
+		defer hmu.Unlock()
+		for _, ln := range lines {
+			if shimAddHits(hits, ln) {
+				continue
+			}
+			var res c12Result
+			if json.Unmarshal(ln, &res) == nil && res.ID != "" {
+				out = append(out, res)
+			}
+		}
+		return out
+	}
+	var results []c12Result
+	var rmu sync.Mutex
+	var wg sync.WaitGroup
+	launch := func(cs []c12Case, shards, parallel int) {
+		if len(cs) == 0 {
+			return
+		}
+		wg.Add(1)
+		go func() {
+			defer wg.Done()
+			rs := run(cs, shards, parallel, 1)
+			rmu.Lock()
+			results = append(results, rs...)
+			rmu.Unlock()
+		}()
+	}
+	if r.OnlyCase >= 0 {
+		// replay: one case of the concatenated list hist, forced, stress
+		cat := append(append(append([]c12Case{}, hist...), forced...), stress...)
+		if r.OnlyCase < len(cat) {
+			launch(cat[r.OnlyCase:r.OnlyCase+1], 1, 1)
+		}
+	} else {
+		launch([]c12Case{idle}, 1, 1)
+		launch(hist, 7, 4)
+		launch(forced, 6, 1) // the hook scheduler is process-wide: one forced case at a time per process
+		launch(stress, 3, 1)
+	}
+	wg.Wait()
+
+	// a missed progress bound only counts when it is missed again alone, with the bound doubled
+	seen := map[string]bool{}
+	forcedOrders, observedOrders := map[string]int{}, map[string]bool{}
+	unforced := map[string]int{}
+	statusMix := map[string]int{}
+	var maxMs int64
+	samples := 0
+	for _, res := range results {
+		c := all[res.ID]
+		seen[res.ID] = true
+		if len(res.NoAnswer) > 0 {
+			rr := run([]c12Case{c}, 1, 1, 2)
+			if len(rr) != 1 || len(rr[0].NoAnswer) == 0 {
+				r.Inconclusive(fmt.Sprintf("case %s missed a progress bound once (%v) but not when re-run alone", c.ID, res.NoAnswer))
+				var keep []string
+				for _, v := range res.Violations {
+					if !strings.HasPrefix(v, "C12:no-answer") && !strings.HasPrefix(v, "C12:backend-not-closed") {
+						keep = append(keep, v)
+					}
+				}
+				res.Violations = keep
+			} else {
+				res = rr[0]
+			}
+		}
+		switch c.Kind {
+		case "hist":
+			r.Case("history:" + strings.Join(c.Ops, ","))
+			r.Add("history_steps_skipped", res.Skipped)
+		case "forced":
+			key := c.Pair + "/" + c.Sched
+			if res.Forced {
+				forcedOrders[key]++
+				r.Case("forced:" + key)
+			} else {
+				unforced[key]++
+				r.Case("unforced:" + key)
+			}
+			observedOrders[c.Pair+":"+res.Order] = true
+			statusMix[key+" -> "+res.Statuses]++
+		case "stress":
+			r.Case(fmt.Sprintf("stress:g=%d:%s", c.G, res.Statuses))
+		case "idle":
+			r.Case("idle-poll")
+			r.Set("idle_poll", res.Statuses)
+		}
+		r.Add("calls_answered_and_judged", res.Calls)
+		r.Add("backend_close_observed_after_close_200", res.CloseSeen)
+		r.Add("messages_delivered_after_backend_close", res.Delivered)
+		if res.Ms > maxMs && c.Kind != "idle" {
+			maxMs = res.Ms
+		}
+		for _, v := range res.Violations {
+			sig, msg := shimSplit(v)
+			r.Violate(sig, fmt.Sprintf("%s %s: %s", c.Kind, c12Describe(c), msg), c, res)
+		}
+		if (c.Kind == "hist" && len(c.Ops) == 4 && res.Delivered > 0 && samples < 2) || (c.Kind == "forced" && res.Forced && samples >= 2 && samples < 5 && c.Rep == 0 && strings.Contains(c.Sched, "while")) {
+			samples++
+			r.Sample(map[string]interface{}{"case": c, "trace": res.Trace, "hook_order": res.Order, "statuses": res.Statuses, "forced": res.Forced})
+		}
+	}
+	for id, c := range all {
+		if !seen[id] && r.OnlyCase < 0 {
+			r.Inconclusive(fmt.Sprintf("no result for %s case %s (worker died?)", c.Kind, id))
+		}
+	}
+	r.Set("histories_exhaustive_up_to_length_4", exhaustive)
+	r.Set("histories_sampled_length_5_to_7", len(hist)-exhaustive)
+	r.Set("forced_schedules_defined", len(scheds))
+	r.Set("forced_orders_executed_distinct", len(forcedOrders))
+	r.Set("forced_orders_executed", forcedOrders)
+	if len(unforced) > 0 {
+		r.Set("schedule_runs_not_forced", unforced) // a barrier timed out or a parked hook was never reached (e.g. the poll lost the race with open)
+	}
+	r.Set("distinct_hook_arrival_orders_observed", len(observedOrders))
+	r.Set("forced_outcomes", statusMix)
+	r.Set("stress_runs", len(stress))
+	r.Set("hook_hits", hits)
+	r.Set("max_case_duration_ms", maxMs)
+	r.JudgeRaces(core.ParseRaceLogs(filepath.Join(r.WorkDir, "race-")))
+	minCases := exhaustive + len(forced) + len(stress) - 50
+	if r.OnlyCase >= 0 {
+		minCases = 1
+	}
+	r.Finish(minCases)
+}
+
+func c12Describe(c c12Case) string {
+	switch c.Kind {
+	case "hist":
+		return "[" + strings.Join(c.Ops, " ") + "]"
+	case "forced":
+		return fmt.Sprintf("%s/%s rep %d", c.Pair, c.Sched, c.Rep)
+	case "stress":
+		return fmt.Sprintf("seed %d, %d goroutines", c.Seed, c.G)
+	}
+	return c.Kind
 }
